@@ -6,8 +6,8 @@ CONSTANTS
   Readers = {0, 1}
   RoundMod = 8
   Fix = {}
-  Record = FALSE
-  R0s = {7}
+  Record = 0
+  R0s = {6}
   GetMins = {2, 5}
   BlockSizes = {1, 2, 3}
   Offsets = {0, 1}
